@@ -79,9 +79,12 @@ def evaluator(p, res, meta):
     committed = 0
     last_off = -1
     labelled = any(l.split()[0] in ("rf", "rb", "rg", "rd", "rx") for l in p)
+    defective = False       # a commit of a defective batch failed (C06's subject): from then on only the offset is this property's business
     for (req, a, _) in res:
         ws = req.split()
         if a in ("panic", "dead"):
+            if defective:
+                return None         # what may and may not panic after an error is C11's subject (finalize with a pending error panics by design)
             return ({"kind": "panic", "op": ws[0]}, f"`{req[:60]}` panicked in a history of emits and commits")
         bs = asmgen.parse_emit(ws)
         if bs is not None:
@@ -98,33 +101,36 @@ def evaluator(p, res, meta):
             last_off = o
         elif ws[0] == "c":
             if not a.startswith("ok"):
-                if labelled:
+                if labelled or (meta and meta.get("kind") == "defective"):
                     try:
                         if asmgen.Oracle(p).run().first_failing_commit() is not None:
-                            return None      # a defective batch: C06's subject
+                            defective = True     # a defective batch: C06's subject; the pending bytes stay pending, the offset must not move
+                            continue
                     except asmgen.Unsupported:
                         return None
+                if defective:
+                    continue
                 return ({"kind": "commit-error"}, f"commit of a defect-free batch returned `{a}`")
             committed = len(emitted)
         elif ws[0] == "buf" and "stale-executor-sees" in a:
             old = a.split("stale-executor-sees=")[1]
             return ({"kind": "stale-executor"}, f"an Executor obtained before this commit sees {(len(old) - 1) // 2} bytes while a fresh reader() sees {(len(a.split()[0]) - 1) // 2}: the commit is not visible through existing executors")
-        elif ws[0] == "buf" and not labelled:
+        elif ws[0] == "buf" and not labelled and not defective:
             got = bytes.fromhex(a[1:])
             if got != bytes(emitted[:committed]):
                 k = next((i for i in range(min(len(got), committed)) if got[i] != emitted[i]), min(len(got), committed))
                 return ({"kind": "committed-bytes"}, f"executable buffer has {len(got)} bytes, {committed} were committed; first difference at offset {k}")
-        elif ws[0] == "ptr" and not labelled:
+        elif ws[0] == "ptr" and not labelled and not defective:
             o = int(ws[1])
             if int(a) != emitted[o]:
                 return ({"kind": "ptr"}, f"ptr({o}) reads {int(a):#x}, the byte emitted at that offset is {emitted[o]:#x}")
-        elif ws[0] == "fin" and not labelled:
+        elif ws[0] == "fin" and not labelled and not defective:
             if not a.startswith("ok"):
                 return ({"kind": "finalize"}, f"finalize returned `{a[:40]}`")
             got = bytes.fromhex(a.split()[-1][1:])
             if got != bytes(emitted):
                 return ({"kind": "final-bytes"}, f"finalize returned {len(got)} bytes, {len(emitted)} were emitted (or contents differ)")
-    if labelled:
+    if labelled and not defective and not (meta and meta.get("kind") == "defective"):
         try:
             o = asmgen.Oracle(p).run()
         except asmgen.Unsupported:
@@ -172,6 +178,21 @@ def check(run):
         lines = [lines[0], f"ex {hexb(bytes([0x90]) * fill)}"] + lines[1:]
         progs.append(lines)
         metas.append({"kind": "labelled", "boundary": False})
+    # defective programs: a commit that FAILS leaves the pending bytes pending — the offset still counts every emitted byte and never goes back
+    for _ in range(3000 if thorough else 300):
+        fam = rng.choice(["x64", "x86", "a64", "rv"])
+        g = asmgen.Gen(rng, "asm", fam, max_ops=20, defect_rate=(1, 1), big=False)
+        lines, _ = g.build()
+        out = []
+        for l in lines:
+            out.append(l)
+            if l == "c":
+                out.append("off")
+                if rng.chance(1, 2):
+                    out.append(f"ex {hexb(rng.bytes(asmgen.UNIT[fam] * rng.range(1, 4)))}")
+                    out.append("off")
+        progs.append(out)
+        metas.append({"kind": "defective", "boundary": False})
     stats = asmprops.process(run, progs, evaluator, metas, chunk=40)
     moved = 0
     run.coverage["evaluations"] = len(progs)
